@@ -128,11 +128,42 @@ class UnivFact:
             idx = tuple(V.to_z3(i) for i in idx)
             if len(idx) != self.arity:
                 continue
-            key = tuple(i.sexpr() for i in idx)
+            key = tuple(i.get_id() for i in idx)
             if key in seen:
                 continue
             seen.add(key)
             out.append(self.body(*idx))
+        return out
+
+
+class LoopFact:
+    """Universal facts established inside the body of a map loop for the generic iteration n:
+    they hold for every iteration, and are instantiated (n := t) at the indices t at which the
+    loop's Skolem functions are applied."""
+
+    arity = 1
+    generic = False
+    decls = ()
+
+    def __init__(self, n, lo, hi, conds, facts, skolems, plain=()):
+        self.n, self.lo, self.hi, self.conds, self.facts, self.skolems = n, lo, hi, conds, facts, skolems
+        self.plain = list(plain)
+
+    def instances(self, more=()):
+        ts = {}
+        for d in self.skolems:
+            for args in list(V.APPS.get(d.name(), {}).values()):
+                if len(args) == 1 and not args[0].eq(self.n):
+                    ts[args[0].get_id()] = args[0]
+        out = []
+        inner = list(self.plain)
+        for f in self.facts:
+            inner.extend(f.instances())
+        guard = z3.And(*self.conds) if self.conds else z3.BoolVal(True)
+        for t in ts.values():
+            rng = z3.And(t >= self.lo, t < self.hi)
+            for inst in inner:
+                out.append(z3.substitute(z3.Implies(z3.And(rng, guard), inst), (self.n, t)))
         return out
 
 
@@ -173,6 +204,13 @@ class ForallP:
         self.lo = lo
 
 
+class ForallIdx:
+    """forall idx (arity ints): body(*idx); instantiated at the applications of ``decls``."""
+
+    def __init__(self, arity, body, decls=()):
+        self.arity, self.body, self.decls = arity, body, list(decls)
+
+
 class Ctx:
     def __init__(self, repo: Repo, decisions=(), specs=None, inline_ok=None, externals=None, check_paths=True):
         self.repo = repo
@@ -200,6 +238,17 @@ class Ctx:
     def fresh(self, base: str, sort="int"):
         self.fresh_n += 1
         name = f"{base}!{self.fresh_n}"
+        if self.frames:
+            # inside the body of a symbolic-range loop a fresh value is a function of the loop index;
+            # the name carries the local decisions taken so far, so that values created before the body's
+            # paths diverge are shared by those paths and later ones are not
+            fr = self.frames[-1]
+            fr["fresh"] += 1
+            name = f"{base}!L{fr['id']}_{fr['fresh']}_" + "".join("T" if d else "F" for d in fr["dec"][: fr["pos"]])
+            zs = {"int": z3.IntSort(), "real": z3.RealSort(), "bool": z3.BoolSort()}[sort]
+            d = z3.Function(name, z3.IntSort(), zs)
+            fr["skolems"].append(d)
+            return V.app(d, fr["n"])
         return {"int": z3.Int, "real": z3.Real, "bool": z3.Bool}[sort](name)
 
     # -- logical state
@@ -218,20 +267,34 @@ class Ctx:
         self.obls.append(Obligation(label, goal, tuple(self.pc), loc or self.loc, kind, tuple(self.univ), meta or {}))
 
     def assume_item(self, item):
-        if isinstance(item, ForallP):
+        if isinstance(item, ForallIdx):
+            self.univ.append(UnivFact(item.arity, item.body, decls=item.decls))
+        elif isinstance(item, ForallP):
             n, body, lo = V.to_z3(item.n), item.body, V.to_z3(item.lo)
-            full = lambda p: z3.Implies(z3.And(p >= lo, p < n), V.to_z3(V.sbool(body(p))))  # noqa: E731
+            def full(p):
+                b = body(p)
+                if isinstance(b, tuple):
+                    b = b[0]
+                return z3.Implies(z3.And(p >= lo, p < n), V.to_z3(V.sbool(b)))
+
             self.univ.append(UnivFact(1, full, decls=trigger_decls(full)))
         else:
             self.assume(item if isinstance(item, bool) else V.to_z3(V.sbool(item)))
 
     def oblige_item(self, label, item, kind="pre"):
-        if isinstance(item, ForallP):
+        if isinstance(item, ForallIdx):
+            idx = [self.fresh("q") for _ in range(item.arity)]
+            self.oblige(label, V.sbool(item.body(*idx)), kind=kind)
+        elif isinstance(item, ForallP):
             p = self.fresh("p")
             n0 = len(self.pc)
             self.pc.append(z3.And(p >= V.to_z3(item.lo), p < V.to_z3(item.n)))
             try:
-                self.oblige(label, V.sbool(item.body(p)), kind=kind)
+                body = item.body(p)
+                if isinstance(body, tuple):  # (goal, hints): hints are instances of separately proved lemmas
+                    body, hints = body
+                    self.pc.extend(hints)
+                self.oblige(label, V.sbool(body), kind=kind)
             finally:
                 del self.pc[n0:]
         else:
@@ -524,15 +587,19 @@ class Interp:
         if not isinstance(st.target, ast.Name) or st.orelse:
             raise Unsupported("loop target / else")
         n = cx.fresh("n")
+        loop_id = cx.fresh_n
         cx.assume(z3.And(n >= V.to_z3(rng.start), n < V.to_z3(rng.stop)))
         results = []  # (conds, writes{arr: term})
+        loop_facts = []
+        all_skolems = []
         pending = [[]]
         pc_len = len(cx.pc)
         known_arrays_before = None
         while pending:
             dec = pending.pop()
-            frame = dict(dec=list(dec), pos=0, pending=[], conds=[])
+            frame = dict(dec=list(dec), pos=0, pending=[], conds=[], skolems=[], n=n, fresh=0, id=loop_id)
             cx.frames.append(frame)
+            univ0 = len(cx.univ)
             old_journal = cx.journal
             cx.journal = []
             env2 = dict(env)
@@ -549,6 +616,13 @@ class Interp:
                 cx.journal = old_journal
                 cx.frames.pop()
             pending.extend(frame["pending"])
+            body_facts = cx.univ[univ0:]
+            del cx.univ[univ0:]
+            cond_ids = {c.get_id() for c in frame["conds"]}
+            plain = [f for f in cx.pc[pc_len:] if f.get_id() not in cond_ids]
+            if ok and (body_facts or plain):
+                loop_facts.append(LoopFact(n, V.to_z3(rng.start), V.to_z3(rng.stop), list(frame["conds"]), body_facts, list(frame["skolems"]), plain))
+            all_skolems.extend(frame["skolems"])
             writes = {}
             if ok:
                 # collect final element-n value of every array mutated in the body
@@ -582,6 +656,8 @@ class Interp:
 
             def newfn(i, old=old, cases=cases, n=n, lo=V.to_z3(rng.start), hi=V.to_z3(rng.stop)):
                 i = V.to_z3(i)
+                for d in all_skolems:
+                    V.APPS.setdefault(d.name(), {})[(i.get_id(),)] = (i,)
                 val = old(i)
                 for c, e in reversed(cases):
                     e = V.to_z3(e) if not isinstance(e, bool) else z3.BoolVal(e)
@@ -595,6 +671,7 @@ class Interp:
                 return z3.If(z3.And(i >= lo, i < hi), a2, b2)
 
             cx.set_arr(arr, fn=newfn)
+        cx.univ.extend(loop_facts)
         cx.notes.append(f"map-loop at {mod.path.name}:{st.lineno} ({len(results)} body paths)")
 
     # ---- assignment ------------------------------------------------------------
@@ -798,6 +875,8 @@ class Interp:
             raise Unsupported("bitwise operator on integers")
         if op == "%" and isinstance(a, str):
             return "<fmt>"
+        if op in ("/", "//", "%") and V.is_z3(b):
+            self.cx.oblige("divisor is not zero", V.s_cmp("!=", b, 0), kind="div")
         return V.s_binop(op, a, b)
 
     def e_BinOp(self, node, env, mod):
